@@ -1282,13 +1282,24 @@ class FileStorage(
                     self._files.empty()
                     self._file.close()
                     try:
-                        os.rename(self._file_name, oldpath)
+                        try:
+                            # Give the old data its .old name while the data
+                            # file stays in place: a crash must never find
+                            # the database without its data file.
+                            os.link(self._file_name, oldpath)
+                        except (AttributeError, NotImplementedError, OSError):
+                            # no hard links here
+                            os.rename(self._file_name, oldpath)
+                        # atomically put the packed file in place
+                        os.replace(self._file_name + '.pack', self._file_name)
                     except Exception:
+                        # The pack could not complete: back to the old file.
+                        if not os.path.exists(self._file_name):
+                            os.rename(oldpath, self._file_name)
                         self._file = open(self._file_name, 'r+b')
                         raise
 
                     # OK, we're beyond the point of no return
-                    os.rename(self._file_name + '.pack', self._file_name)
                     self._file = open(self._file_name, 'r+b')
                     self._initIndex(index, self._tindex)
                     self._pos = opos
